@@ -16,7 +16,7 @@ func init() {
 		Explain: "Decided. Scan side: D1 effect inventory — in all first-party code reachable (CHA) from the methods of every registered filesystem extractor and from filesystem.Run, the only calls of file-system-mutating primitives (os.Create/OpenFile-for-write/WriteFile/Mkdir*/Remove*/Rename/Symlink/Link/Chmod/Chown/Chtimes/Truncate/Chdir, temp-file creators, exec.Command*, database opens) are the audited ones: the temp copy in ScanInput.GetRealPath and the RemoveAll of that temp dir in its callers; " +
 			"D2 database opens are read-only: every bbolt.Open passes Options{ReadOnly: true}; D3 temp pairing — every caller of GetRealPath removes filepath.Dir(<the returned path>) on all exits when the root is virtual, and GetRealPath removes its directory on its own error exits. " +
 			"Image side: D4 in unpack every os.MkdirAll/WriteFile/Symlink is reachable only after the entry name passed the lexical '..' test and pathOutsideBaseDirectory(dir, fullPath) returned false for that path; D5 the containment decision is filepath.Rel-based and rejects both rel == \"..\" and the \"../\" prefix, errors count as outside; D6 layer scanning writes only below filepath.Join(<layer dir>, cleaned name) after the '../' test, creates no symlinks or hard links on disk, every error exit after the temp dir was created passes the clean-up, UnpackSquashed removes its temp dir. " +
-			"Added in round 2: D7 symlink.TargetOutsideRoot answers on every path with the marker test on the joined, cleaned path of the target. Added in round 3: D8 a link name is re-rooted under the target directory exactly when it is absolute (the reading TargetOutsideRoot assumes). NOT decided: effects inside third-party callees (go-rpmdb's sqlite backend, saferwall/pe), symlink targets that resolve outside only through directories changed by later entries, detectors and standalone extractors (outside the scan clause checked here).",
+			"Added in round 2: D7 symlink.TargetOutsideRoot answers on every path with the marker test on the joined, cleaned path of the target. Added in round 3: D8 a link name is re-rooted under the target directory exactly when it is absolute (the reading TargetOutsideRoot assumes). Added in round 7: D5 additionally: after a failed EvalSymlinks of the parent only fs.ErrNotExist lets the containment check go on (to an ancestor or to 'inside'). NOT decided: effects inside third-party callees (go-rpmdb's sqlite backend, saferwall/pe), symlink targets that resolve outside only through directories changed by later entries, detectors and standalone extractors (outside the scan clause checked here).",
 		Assume:       []string{"effects inside third-party functions are not explored; their open modes are trusted rows (rpmdb.Open, pe.New)"},
 		ThoroughGOOS: []string{"linux", "windows", "darwin"},
 		Run:          runC06,
@@ -566,6 +566,58 @@ func c06Unpack(p *Prog, r *Report) {
 				return !(isB && b)
 			}, nil, nil, "an error yields 'outside'", "when the relative path cannot be computed the path is treated as inside the base directory")
 		}
+	}
+	// a parent that cannot be resolved means 'outside' — except when it does not exist yet: only then
+	// may the check go on (to an ancestor, or to 'inside')
+	var evals []*ssa.Call
+	forEachInstr(pob, func(_ *ssa.BasicBlock, _ int, in ssa.Instruction) {
+		if c, ok := in.(*ssa.Call); ok && refOf(c.Common()).is("path/filepath", "", "EvalSymlinks") {
+			evals = append(evals, c)
+		}
+	})
+	if len(evals) > 0 {
+		var evalErr func(v ssa.Value, d int) bool
+		evalErr = func(v ssa.Value, d int) bool {
+			switch x := v.(type) {
+			case *ssa.Extract:
+				c, isC := x.Tuple.(*ssa.Call)
+				return isC && x.Index == 1 && refOf(c.Common()).is("path/filepath", "", "EvalSymlinks")
+			case *ssa.Phi:
+				if d > 4 {
+					return false
+				}
+				for _, e := range x.Edges {
+					if !evalErr(e, d+1) {
+						return false
+					}
+				}
+				return len(x.Edges) > 0
+			}
+			return false
+		}
+		failed, _ := guardEdges(pob, condNonNil(func(v ssa.Value) bool { return evalErr(v, 0) }))
+		notExist, _ := guardEdges(pob, condCall(func(c *ssa.Call) bool {
+			return refOf(c.Common()).is("errors", "", "Is") && len(c.Call.Args) == 2 && evalErr(c.Call.Args[0], 0) && loadsGlobal(c.Call.Args[1], "io/fs", "ErrNotExist")
+		}))
+		cut := edgeSet{}
+		for _, e := range notExist {
+			cut[e] = true
+		}
+		bad := ""
+		for _, ed := range failed {
+			w := searchPath(Point{ed.From, len(ed.From.Instrs) - 1}, ed.Succ, func(in ssa.Instruction) bool {
+				if ret, ok := in.(*ssa.Return); ok {
+					b, isB := constBool(retVal(ret, 0))
+					return !(isB && b)
+				}
+				c, ok := in.(*ssa.Call)
+				return ok && refOf(c.Common()).is("path/filepath", "", "EvalSymlinks")
+			}, nil, cut)
+			if w != nil {
+				bad = strings.Join(w, "→")
+			}
+		}
+		r.Check(len(failed) > 0 && bad == "", "D5-no-prefix-confusion", fb.key+":unresolvable-means-outside", p.Pos(evals[0].Pos()), "after a failed EvalSymlinks only fs.ErrNotExist lets the check continue", "when the parent directory cannot be resolved for a reason other than 'does not exist yet' (a path longer than PATH_MAX reached through short symlink aliases, a loop, a permission error) the check goes on to an ancestor or answers 'inside' instead of 'outside': the kernel can still walk that directory, so the entry is written through it to wherever it leads; witness path (SSA blocks): "+bad)
 	}
 	// no HasPrefix(x, baseDir) decisions left
 	forEachInstr(pob, func(_ *ssa.BasicBlock, _ int, in ssa.Instruction) {
